@@ -153,6 +153,9 @@ def gen_spec(seed, avoid=(), missing=False):
             if lines and ch.chance(40):
                 lines.insert(ch.below(len(lines) + 1), SEPARATOR)
             nl = b'\r\n' if ch.chance(48) else b'\n'
+            if len(seed) >= 8 and bytes(seed)[-8] % 8 == 3:
+                # a bare CR inside the file (in a long string), which is not a line end of the file
+                lines = lines + [b's=[[one\rtwo]]', b'-- c \r x']
             final_nl = not ch.chance(100)
             if 'nofinalnl' in avoid:
                 final_nl = True
